@@ -107,6 +107,34 @@ pub fn weak_word<T: ?Sized + Trace>(w: &crate::weak::Weak<T>) -> Option<u16> {
     w.verif_word()
 }
 
+/// Address and raw weak word of the side record, read from the raw address of a managed
+/// allocation.
+///
+/// # Safety
+/// `addr` must be the address of a `CcBox` that is still allocated.
+#[cfg(feature = "weak-ptrs")]
+pub unsafe fn side_raw(addr: *const ()) -> Option<(*const (), u16)> {
+    let b = &*(addr as *const CcBox<()>);
+    if b.counter_marker().has_allocated_for_metadata() {
+        let m = b.get_metadata_unchecked();
+        Some((m.as_ptr() as *const (), m.as_ref().weak_counter_marker.verif_word()))
+    } else {
+        None
+    }
+}
+
+/// Address of the `CleanerMap` allocation of a `Cleaner`, if it was created.
+#[cfg(feature = "cleaners")]
+pub fn cleaner_map_addr(cleaner: &crate::cleaners::Cleaner) -> Option<*const ()> {
+    cleaner.verif_map_addr()
+}
+
+/// `(size, align)` of the `CleanerMap` allocation.
+#[cfg(feature = "cleaners")]
+pub fn cleaner_map_layout() -> (usize, usize) {
+    crate::cleaners::Cleaner::verif_map_layout()
+}
+
 /// `(collecting, finalizing, dropping)`; `None` when the thread-local state is gone.
 pub fn flags() -> Option<(bool, bool, bool)> {
     crate::state::try_state(|s| {
